@@ -139,3 +139,71 @@ theorem runPasses_spec (B : Nat → Nat → Prop) : ∀ (passes : List (Nat × (
     · simpa [List.map_cons, List.reverse_cons, List.append_assoc] using s2
 
 end TV.Seq
+
+namespace TV.Seq
+
+/-! ### the year pass: buckets from the earliest to the latest year of the track -/
+
+theorem foldl_min_le : ∀ (xs : List Int) (a : Int), xs.foldl min a ≤ a ∧ ∀ x ∈ xs, xs.foldl min a ≤ x
+  | [], a => ⟨by simp, by simp⟩
+  | y :: ys, a => by
+    obtain ⟨h1, h2⟩ := foldl_min_le ys (min a y)
+    simp only [List.foldl_cons]
+    refine ⟨by omega, ?_⟩
+    intro x hx
+    rcases List.mem_cons.mp hx with e | hx
+    · subst e; omega
+    · exact h2 x hx
+
+theorem le_foldl_max : ∀ (xs : List Int) (a : Int), a ≤ xs.foldl max a ∧ ∀ x ∈ xs, x ≤ xs.foldl max a
+  | [], a => ⟨by simp, by simp⟩
+  | y :: ys, a => by
+    obtain ⟨h1, h2⟩ := le_foldl_max ys (max a y)
+    simp only [List.foldl_cons]
+    refine ⟨by omega, ?_⟩
+    intro x hx
+    rcases List.mem_cons.mp hx with e | hx
+    · subst e; omega
+    · exact h2 x hx
+
+theorem minD_le (l : List Int) (d x : Int) (hx : x ∈ l) : minD l d ≤ x := by
+  cases l with
+  | nil => simp at hx
+  | cons y ys =>
+    obtain ⟨h1, h2⟩ := foldl_min_le ys y
+    rcases List.mem_cons.mp hx with e | hx
+    · subst e; exact h1
+    · exact h2 x hx
+
+theorem le_maxD (l : List Int) (d x : Int) (hx : x ∈ l) : x ≤ maxD l d := by
+  cases l with
+  | nil => simp at hx
+  | cons y ys =>
+    obtain ⟨h1, h2⟩ := le_foldl_max ys y
+    rcases List.mem_cons.mp hx with e | hx
+    · subst e; exact h1
+    · exact h2 x hx
+
+/-- every year of the track has its bucket in the last pass, whatever the years are -/
+theorem yearPass_inRange (digits : Nat → List Int) (n i : Nat) (hi : i < n) :
+    0 ≤ (yearPass digits n).2 i ∧ (yearPass digits n).2 i < ((yearPass digits n).1 : Int) := by
+  have hm : yearDigit digits i ∈ (List.range n).map (yearDigit digits) :=
+    List.mem_map.mpr ⟨i, List.mem_range.mpr hi, rfl⟩
+  have h1 := minD_le _ 0 _ hm
+  have h2 := le_maxD _ (-1) _ hm
+  simp only [yearPass]
+  omega
+
+/-- the order by `year - ymin` is the order by `year` -/
+theorem lexLe_shift (B : Nat → Nat → Prop) (f : Nat → Int) (c : Int) (fs : List (Nat → Int)) (i j : Nat) :
+    LexLe B ((fun id => f id - c) :: fs) i j ↔ LexLe B (f :: fs) i j := by
+  simp only [LexLe]
+  constructor
+  · rintro (h | ⟨h, r⟩)
+    · exact Or.inl (by omega)
+    · exact Or.inr ⟨by omega, r⟩
+  · rintro (h | ⟨h, r⟩)
+    · exact Or.inl (by omega)
+    · exact Or.inr ⟨by omega, r⟩
+
+end TV.Seq
